@@ -222,10 +222,17 @@ impl EnvModel {
     /// implicit layer paths. `root_abs` is the absolute path the snapshot is rooted at.
     pub fn read_layer(snap: &Snap, layer: &[u8], root_abs: &[u8]) -> EnvModel {
         let mut m = EnvModel::default();
+        // entries are opened by name, so a symbolic link counts as what it resolves to
+        let through = |full: &[u8]| -> Option<&Node> {
+            match snap.get(full) {
+                Some(Node::Symlink { .. }) => snap.resolve(full, root_abs).and_then(|r| snap.get(&r)),
+                other => other,
+            }
+        };
         let read_dir = |dir: &[u8], d: &mut Delta| {
             for child in snap.children(dir) {
                 let full = join(dir, &child);
-                let Some(Node::File { data, .. }) = snap.get(&full) else {
+                let Some(Node::File { data, .. }) = through(&full) else {
                     continue;
                 };
                 match child.iter().rposition(|c| *c == b'.') {
@@ -246,10 +253,11 @@ impl EnvModel {
         read_dir(&launch, &mut m.launch);
         for child in snap.children(&launch) {
             let full = join(&launch, &child);
-            if snap.get(&full).is_some_and(Node::is_dir) {
+            if through(&full).is_some_and(Node::is_dir) {
                 if let Ok(name) = String::from_utf8(child.clone()) {
                     let mut d = Delta::default();
-                    read_dir(&full, &mut d);
+                    let real = snap.resolve(&full, root_abs).unwrap_or_else(|| full.clone());
+                    read_dir(&real, &mut d);
                     m.process.insert(name, d);
                 }
             }
